@@ -386,6 +386,14 @@ func predicates(client *resolve.LocalClient, g *resolve.Graph, st *modelStats) (
 			if err != nil {
 				continue
 			}
+			isListed := func(ver string) bool {
+				for _, v := range listed {
+					if semver.Maven.Compare(v.Version, ver) == 0 {
+						return true
+					}
+				}
+				return false
+			}
 			best := ""
 			for _, v := range listed {
 				if inAll(v.Version) && (best == "" || semver.Maven.Compare(v.Version, best) > 0) {
@@ -403,7 +411,9 @@ func predicates(client *resolve.LocalClient, g *resolve.Graph, st *modelStats) (
 					seenRange = true
 					continue
 				}
-				if inAll(r) {
+				// (a soft version that is not listed is only looked up at the very
+				// end by the resolver and ends in an error: not a candidate here)
+				if inAll(r) && isListed(r) {
 					expected = r
 					break
 				}
@@ -424,7 +434,19 @@ func predicates(client *resolve.LocalClient, g *resolve.Graph, st *modelStats) (
 				for _, r := range reqs {
 					onEdge[r] = true
 				}
-				explained := false
+				// The order in which the requirements were met is not visible in
+				// the graph either: a re-resolution keeps the order of the earlier
+				// passes, whose traversal may have been another one. Any candidate
+				// of the documented preference is therefore accepted here (the
+				// highest listed version inside every range, or a listed soft
+				// version inside every range); the order itself is checked on
+				// universes whose traversal cannot change (preference_test.go).
+				explained := semver.Maven.Compare(ver[k], best) == 0 && best != ""
+				for _, r := range reqs {
+					if !isRange(r) && inAll(r) && isListed(r) && semver.Maven.Compare(ver[k], r) == 0 {
+						explained = true
+					}
+				}
 				for pk, vs := range client.PackageVersions {
 					for _, v := range vs {
 						if explained {
@@ -644,8 +666,19 @@ func TestReplay(t *testing.T) {
 		t.Skip("no replay file")
 	}
 	var c rootCase
-	if _, err := ev.ReadReplay(path, &c); err != nil {
+	check, err := ev.ReadReplay(path, &c)
+	if err != nil {
 		t.Fatal(err)
+	}
+	if strings.HasPrefix(check, "preference/") {
+		obs, exp, _, err := validatePref(c.Universe)
+		if err != nil {
+			t.Fatal(err)
+		}
+		if obs != "" {
+			t.Fatalf("replay fails: %s (expected %s)", obs, exp)
+		}
+		return
 	}
 	obs, exp, _, _, err := validate(c.Universe, c.Root)
 	if err != nil {
